@@ -92,10 +92,15 @@ fn shape_class(t: &Tree) -> String {
 }
 
 pub fn check(t: &Tree, init_x: Option<u8>, out: &Outcome<Obs>, log: &TapeLog) -> Option<(String, String)> {
+    check_styled(t, init_x, out, log, 0)
+}
+
+pub fn check_styled(t: &Tree, init_x: Option<u8>, out: &Outcome<Obs>, log: &TapeLog, style: u8) -> Option<(String, String)> {
     let tape: Vec<(u8, u32)> = log.choices.iter().map(|c| (c.kind, c.c)).collect();
     let faulted = log.choices.iter().any(|c| c.kind as usize == K_FAULT && c.c == 1);
-    let head = format!("C03 constructs={} {}", shape_class(t), if faulted { "with-fault" } else { "no-fault" });
-    let ctx = |w: String| format!("tree {:?}, caller X = {:?}, environment answers {:?}: {}", t, init_x, tape, w);
+    let built = if style == 0 { String::new() } else { format!(" built-with={}", BUILD_STYLES[style as usize]) };
+    let head = format!("C03 constructs={}{} {}", shape_class(t), built, if faulted { "with-fault" } else { "no-fault" });
+    let ctx = |w: String| format!("tree {:?}{}, caller X = {:?}, environment answers {:?}: {}", t, built, init_x, tape, w);
     let (r, trace, fin) = match out {
         Outcome::Done(o) => o,
         Outcome::Panic(m) => return Some((format!("{} panic", head), ctx(format!("panicked: {}", m.chars().take(200).collect::<String>())))),
@@ -137,8 +142,12 @@ pub fn check(t: &Tree, init_x: Option<u8>, out: &Outcome<Obs>, log: &TapeLog) ->
 }
 
 pub fn explore_tree(t: &Tree, init_x: Option<u8>, cap: usize, sub: &mut Part) {
+    explore_tree_styled(t, init_x, cap, sub, 0)
+}
+
+pub fn explore_tree_styled(t: &Tree, init_x: Option<u8>, cap: usize, sub: &mut Part, style: u8) {
     let cfg = explorer_cfg(cap);
-    let config = build(t);
+    let config = build_styled(t, style);
     let body = || run_config(&config, init_x);
     let st = tape::explore(&cfg, &body, &mut |prefix, out, log| {
         sub.transitions += log.choices.len() as u64;
@@ -151,7 +160,7 @@ pub fn explore_tree(t: &Tree, init_x: Option<u8>, cap: usize, sub: &mut Part) {
             Outcome::Diverged(m) => sub.violate(
                 format!("C03 constructs={} configuration-behaves-differently-when-run-again", shape_class(t)),
                 format!("tree {:?}, caller X = {:?}: re-running the configuration under the environment answers {:?} of an earlier execution: {}", t, init_x, prefix, m),
-                json!({"tree": format!("{:?}", t), "init_x": init_x, "tape": prefix, "cap": cap, "rerun": true}),
+                json!({"tree": format!("{:?}", t), "init_x": init_x, "tape": prefix, "cap": cap, "rerun": true, "style": style}),
             ),
             Outcome::Done((r, tr, _)) => {
                 if sub.outcomes.len() < 64 {
@@ -160,8 +169,8 @@ pub fn explore_tree(t: &Tree, init_x: Option<u8>, cap: usize, sub: &mut Part) {
             }
             Outcome::Panic(_) => sub.outcome("panic"),
         }
-        if let Some((s, d)) = check(t, init_x, out, log) {
-            sub.violate(s, d, json!({"tree": format!("{:?}", t), "init_x": init_x, "tape": prefix, "cap": cap}));
+        if let Some((s, d)) = check_styled(t, init_x, out, log, style) {
+            sub.violate(s, d, json!({"tree": format!("{:?}", t), "init_x": init_x, "tape": prefix, "cap": cap, "style": style}));
         }
     });
     let _ = st;
@@ -191,6 +200,7 @@ pub fn tree_set(thorough: bool) -> (Vec<Tree>, Value) {
 pub fn run(rep: &mut Report) {
     let thorough = rep.tier == Tier::Thorough;
     rep.alpha("all configuration trees over {leaf, while, if, if/else, scope, scope with initialiser and merger} built through the public builder; leaves with effect in {none, insert X at init, insert X at execute, set_value X, require X}");
+    rep.alpha("the same trees assembled through do_if_some_(Some/None), assert(true) steps in between, do_many_ over a Vec / a filtered iterator / chained iterators, and leaves split into do_(head) + debug(effect)");
     rep.alpha("environment: every scripted condition evaluation answers by explorer choice (all outcomes for the first K evaluations, false afterwards); at most one injected error at any (phase, node) of any leaf or condition; caller state with and without X");
     rep.assume("the reference interpreter transcribes the documented lifecycle (init everything outside scopes once, then all requirements, then execute; loop re-inits its condition on entry, tests before every pass, +1 on the innermost visible counter per completed pass; scope body init/require/execute against a child per entry; scope closed on error)");
     let cap = if thorough { 6 } else { 5 };
@@ -214,6 +224,32 @@ pub fn run(rep: &mut Report) {
     part.sample(json!({"tree": "while c0 { scope { leaf(insert X at execute) } ; leaf(set_value X) }", "environment": "c0 = true, true, false; fault at the second execute of the inner leaf"}));
     part.require_outcomes(6);
     rep.push(part);
+
+    // the same programs assembled through the other builder entry points, all documented as equivalent to `do_`
+    let mut part = Part::new("programs.builder-entry-points");
+    let cap2 = if thorough { 4 } else { 3 };
+    let small: Vec<&Tree> = trees.iter().filter(|t| size(t) <= if thorough { 4 } else { 3 } && leaves(t) >= 1).collect();
+    part.bound("condition_evaluation_cap", cap2 as u64).bound("trees", small.len() as u64).bound("styles", (BUILD_STYLES.len() - 1) as u64);
+    let subs: Vec<Part> = small
+        .par_chunks(16)
+        .map(|chunk| {
+            let mut sub = Part::new("x");
+            for t in chunk {
+                for style in 1..BUILD_STYLES.len() as u8 {
+                    explore_tree_styled(t, None, cap2, &mut sub, style);
+                    explore_tree_styled(t, Some(7), cap2, &mut sub, style);
+                }
+            }
+            sub
+        })
+        .collect();
+    for s in subs {
+        part.absorb(s);
+    }
+    for s in &BUILD_STYLES[1..] {
+        part.outcome(format!("style:{}", s));
+    }
+    rep.push(part);
 }
 
 pub fn replay(case: &Value) -> Result<Vec<(String, String)>, String> {
@@ -221,19 +257,20 @@ pub fn replay(case: &Value) -> Result<Vec<(String, String)>, String> {
     let init_x = case["init_x"].as_u64().map(|v| v as u8);
     let cap = case["cap"].as_u64().unwrap_or(4) as usize;
     let tape: Vec<u32> = case["tape"].as_array().ok_or("no tape")?.iter().map(|x| x.as_u64().unwrap() as u32).collect();
+    let style = case["style"].as_u64().unwrap_or(0) as u8;
     for thorough in [false, true] {
         let (trees, _) = tree_set(thorough);
         if let Some(t) = trees.iter().find(|t| format!("{:?}", t) == want) {
             // the recorded execution alone, on a freshly built configuration
             let cfg = explorer_cfg(cap);
-            let (out, log) = tape::run_once(&cfg, &tape, || run_tree(t, init_x));
-            let alone: Vec<(String, String)> = check(t, init_x, &out, &log).into_iter().collect();
+            let (out, log) = tape::run_once(&cfg, &tape, || run_config(&build_styled(t, style), init_x));
+            let alone: Vec<(String, String)> = check_styled(t, init_x, &out, &log, style).into_iter().collect();
             if !alone.is_empty() && case["rerun"].as_bool() != Some(true) {
                 return Ok(alone);
             }
             // it may depend on the executions of the same configuration object before it: the whole tree again
             let mut sub = Part::new("x");
-            explore_tree(t, init_x, cap, &mut sub);
+            explore_tree_styled(t, init_x, cap, &mut sub, style);
             return Ok(sub.violations.iter().map(|v| (v.sig.clone(), v.detail.clone())).collect());
         }
     }
